@@ -38,7 +38,7 @@ def doc_pairs():
 
 
 POOLS = {
-    "string": ['"abc"', "abc", '"héllo wörld"', '""', '"a b c"', "foo-bar", '"ABC def"', "1"],
+    "string": ['"abc"', "abc", '"héllo wörld"', '""', '"a b c"', "foo-bar", '"ABC def"', "1", '"ÄÇÐ"', '"ÉCOLE straße"', "Éa", '"ǅ İ ß"'],
     "substring": ['"b"', '"bc"', "c", '"zz"', '""', '" "'],
     "insert": ['"X"', "yy", '""'],
     "index": ["1", "2", "-1", "0", "3", "10", "1.5", "-2"],
